@@ -20,3 +20,51 @@ Proof.
     rewrite V. unfold ossl_build, leg_valid. rewrite Ep. unfold leg_ctor. rewrite normalize_idem, Ep. reflexivity.
   - destruct (valid_new (normalize s)); [|discriminate]. destruct (semver_ctor (normalize s)); discriminate.
 Qed.
+
+(* ---- the 3.x half ------------------------------------------------------------------------------------------------ *)
+From UV.Schemes Require Import NumeralsStr SemverRoundTrip.
+
+(* a text that begins with a number and a dot and has a known base as a prefix begins with 0. or 1. *)
+Lemma base_prefix_small A rest base : all_digits A = true -> A <> [] -> In base bases ->
+  startswith (A ++ c_dot :: rest) base = true -> (int_of_digits A < 3)%N.
+Proof.
+  intros DA NA Hin H. destruct A as [|a [|a2 A']]; [congruence| |].
+  - vm_compute in Hin. cbn [app] in H.
+    repeat (destruct Hin as [<-|Hin];
+            [cbn [startswith] in H; apply andb_true_iff in H as [H1 _]; apply eqc_eq in H1; subst a; vm_compute; reflexivity|]).
+    destruct Hin.
+  - exfalso. cbn [all_digits forallb] in DA. apply andb_true_iff in DA as [_ DA]. apply andb_true_iff in DA as [D2 _].
+    vm_compute in Hin. cbn [app] in H.
+    repeat (destruct Hin as [<-|Hin];
+            [cbn [startswith] in H; apply andb_true_iff in H as [_ H]; apply andb_true_iff in H as [H2 _]; apply eqc_eq in H2; subst a2;
+             vm_compute in D2; discriminate D2|]).
+    destruct Hin.
+Qed.
+
+Lemma printed_not_legacy x : (3 <= sv_major x)%N -> leg_parse (semver_str x) = Ok None.
+Proof.
+  intros HM. unfold leg_parse. destruct (existsb (startswith (semver_str x)) bases) eqn:E; [|reflexivity]. exfalso.
+  apply existsb_exists in E as (base & Hin & Hs). destruct (str_of_N_spec (sv_major x)) as (DA & NA & IA).
+  unfold semver_str in Hs.
+  pose proof (base_prefix_small _ _ _ DA NA Hin Hs) as K. rewrite IA in K. lia.
+Qed.
+
+Theorem ossl_semver_roundtrip s x : ossl_ctor s = Ok (OSem x) -> ossl_ctor (ossl_str (OSem x)) = Ok (OSem x).
+Proof.
+  unfold ossl_ctor at 1. destruct (ossl_valid (normalize s)) as [[|]|e]; try discriminate.
+  unfold ossl_build. destruct (leg_valid (normalize s)) as [[|]|e]; try discriminate.
+  - destruct (leg_ctor (normalize s)); discriminate.
+  - destruct (valid_new (normalize s)) eqn:Ev; [|discriminate].
+    destruct (semver_ctor (normalize s)) as [v|e] eqn:Ec; [|discriminate]. intros H. assert (v = x) by congruence. subst v.
+    unfold semver_ctor in Ec. rewrite normalize_idem in Ec. unfold valid_new in Ev.
+    destruct (coerce (normalize s)) as [w|e] eqn:Eco; [|discriminate]. assert (w = x) by congruence. subst w.
+    apply N.leb_le in Ev. pose proof (coerce_wf _ _ Eco) as W.
+    cbn [ossl_str]. unfold ossl_ctor. rewrite (printed_normal x W).
+    assert (Vn : valid_new (semver_str x) = true).
+    { unfold valid_new. rewrite (semver_print_parse x W). apply N.leb_le, Ev. }
+    unfold ossl_valid. rewrite Vn. unfold ossl_build, leg_valid. rewrite (printed_not_legacy x Ev), Vn.
+    unfold semver_ctor. rewrite (printed_normal x W), (semver_print_parse x W). reflexivity.
+Qed.
+
+Theorem ossl_ctor_roundtrip s v : ossl_ctor s = Ok v -> ossl_ctor (ossl_str v) = Ok v.
+Proof. destruct v as [x|x]; [apply ossl_legacy_roundtrip|apply ossl_semver_roundtrip]. Qed.
